@@ -50,6 +50,7 @@ type Contract struct {
 	ThoroughOnly bool
 	Valid        *Clause                // overflow obligations are proved under this validity condition
 	InlineCalls  map[string]map[int]int // callee key -> loop unrollings, for callees translated in place
+	Reveal       map[string]bool        // opaque spec definitions expanded in this contract
 	Shapes       []Shape                // structured parameters: param = ctor(ghosts...)
 	Cases        []*Contract            // additional contract cases proved separately (e.g. for shaped inputs)
 	CaseName     string
@@ -80,6 +81,7 @@ type LemmaStmt struct {
 }
 
 type Lemma struct {
+	Reveal       map[string]bool
 	QuickStride  int
 	ThoroughOnly bool
 	Name         string
@@ -284,7 +286,23 @@ func (cs *ContractSet) parseFile(path, pkgDir string) error {
 			}
 			d.Body = e
 			cs.Defs[d.Name] = d
-		case "define":
+		case "reveal":
+			if cur != nil {
+				if cur.Reveal == nil {
+					cur.Reveal = map[string]bool{}
+				}
+				for _, n := range strings.Fields(rest) {
+					cur.Reveal[n] = true
+				}
+			} else if lem != nil {
+				if lem.Reveal == nil {
+					lem.Reveal = map[string]bool{}
+				}
+				for _, n := range strings.Fields(rest) {
+					lem.Reveal[n] = true
+				}
+			}
+		case "define", "defineopaque":
 			// define name(a, b:str) = expr
 			eq := strings.Index(rest, "=")
 			if eq < 0 {
@@ -319,6 +337,7 @@ func (cs *ContractSet) parseFile(path, pkgDir string) error {
 				return fail("%v", err)
 			}
 			d.Body = e
+			d.Opaque = word == "defineopaque"
 			cs.Defs[d.Name] = d
 		case "props":
 			if cur != nil {
